@@ -3453,6 +3453,11 @@ impl<'a, R: FileManager> FrontendCtx<'a, R> {
                         };
                         items = Some(ann.into());
                     } else {
+                        if items.is_some() {
+                            // `[A, ...B[], C]`: the runtime tuple is a prefix followed by the rest element
+                            return self
+                                .error(&anchor, DiagnosticInfoMessage::TupleRestMustBeLast);
+                        }
                         let ty_schema = self.extract_type(&it.ty, file.clone())?;
                         prefix_items.push(ty_schema);
                     }
